@@ -62,7 +62,7 @@ theorem routesFromBlock_nodup (c : Cidr) (aff : Option Nat) (allocs : List (Nat 
       ((allocs.foldl (fun (m : List (Cidr × Nat)) a =>
         match a.2 with
         | none => m
-        | some h => if aff == some h then m else aset m (Cidr.host (c.addr + a.1)) h) m).map Prod.fst).Nodup := by
+        | some h => if aff == some h then m else aset m (Cidr.hostOf c.v6 (c.addr + a.1)) h) m).map Prod.fst).Nodup := by
     induction allocs with
     | nil => intro m hm; exact hm
     | cons a as ih =>
